@@ -173,6 +173,17 @@ CHECKS = {
         "75 degrees of its centroid.",
         "DESIGN.md section 6, C18",
     ),
+    "C19": (
+        "property-based testing (Hypothesis): deep before/after snapshots over generated constructor x mutation x export-edit histories",
+        "Exploration: ten constructor paths (from_topology / open_grid(dict) with ndarray or list inputs, dtypes, start_index, fill and longitude "
+        "dialects; from_face_vertices; from_dataset on my UGRID, MPAS, ESMF, SCRIP, Exodus and ICON datasets with attributes) followed by "
+        "histories of 1-6 steps over {original, copy()}: public mutators on either side (construct_face_centers, normalize, chunk, setters, lazy "
+        "derivation) and caller edits of exported datasets and GeoDataFrames. Every input is deep-snapshotted before and compared after "
+        "construction, derivation, copy and at the end; after each mutation the other side's exported variables must be unchanged; after each "
+        "export edit the grid's reports must be unchanged.",
+        "Trusted: observations are taken through to_xarray('ugrid'); snapshots compare bytes, dtypes, dims and attributes.",
+        "DESIGN.md section 6, C19",
+    ),
     "C20": (
         "property-based testing (Hypothesis): generated grid pairs vs. definitional equality oracle",
         "Exploration: generated pairs of grids differing in exactly one longitude / latitude / connectivity entry / "
